@@ -77,6 +77,8 @@ type UnackedMessage struct {
 	cTag  string
 	msg   *amqp.Message
 	queue string
+	// the queue the message was delivered from: a queue declared later under the same name is another queue
+	origin *queue.Queue
 }
 
 // NewChannel returns new instance of Channel
@@ -604,9 +606,10 @@ func (channel *Channel) AddUnackedMessage(dTag uint64, cTag string, queue string
 	channel.ackLock.Lock()
 	defer channel.ackLock.Unlock()
 	channel.ackStore[dTag] = &UnackedMessage{
-		cTag:  cTag,
-		msg:   message,
-		queue: queue,
+		cTag:   cTag,
+		msg:    message,
+		queue:  queue,
+		origin: channel.conn.GetVirtualHost().GetQueue(queue),
 	}
 	channel.metrics.Unacked.Counter.Inc(1)
 }
@@ -652,6 +655,9 @@ func (channel *Channel) handleAck(method *amqp.BasicAck) *amqp.Error {
 func (channel *Channel) ackMsg(unackedMessage *UnackedMessage, deliveryTag uint64) {
 	delete(channel.ackStore, deliveryTag)
 	q := channel.conn.GetVirtualHost().GetQueue(unackedMessage.queue)
+	if q != unackedMessage.origin {
+		q = nil
+	}
 	if q != nil {
 		q.AckMsg(unackedMessage.msg)
 
@@ -716,6 +722,9 @@ func (channel *Channel) handleReject(deliveryTag uint64, multiple bool, requeue 
 func (channel *Channel) rejectMsg(unackedMessage *UnackedMessage, deliveryTag uint64, requeue bool) {
 	delete(channel.ackStore, deliveryTag)
 	qu := channel.conn.GetVirtualHost().GetQueue(unackedMessage.queue)
+	if qu != unackedMessage.origin {
+		qu = nil
+	}
 
 	if qu != nil {
 		if requeue {
